@@ -22,7 +22,7 @@ from vlib import tlc, expect_holds, ToolError
 LEVEL = "model_checking"
 TIERS = {"quick": dict(two="FALSE", exprs=2000), "thorough": dict(two="TRUE", exprs=50000)}
 NAMES = {"DEG": "°", "OMEGA": "Ω", "MU": "μ"}
-EXPR_MINE = {"unit", "dims", "error-expected", "unexpected-error", "zero-power-in-unit"}
+EXPR_MINE = {"unit", "dims", "value", "error-expected", "unexpected-error", "zero-power-in-unit"}
 
 
 def typable(text):
@@ -68,22 +68,24 @@ def defs(chk, v):
         names = [n for n in u["names"] if typable(n)]
         if not names:
             continue
-        base = " ".join("%s^%d" % (b, u["dims"][b]) for b in ugen.BASES if u["dims"].get(b, 0))
         for n in names[:2]:
-            rows.append((k, n, u.get("bias", 0), "1 %s to %s" % (n, base)))
-    path = lang.record([q for _, _, _, q in rows], "c05-defs")
+            for pw in (1, -1, 2):
+                base = " ".join("%s^%d" % (b, u["dims"][b] * pw) for b in ugen.BASES if u["dims"].get(b, 0))
+                rows.append((k, n, u.get("bias", 0) * pw, "1 %s to %s" % (n if pw == 1 else "%s^%d" % (n, pw), base), pw))
+    path = lang.record([q for _, _, _, q, _ in rows], "c05-defs")
     out, observed = [], {}
-    for i, ((k, n, bias, q), r) in enumerate(zip(rows, vlib.read_ndjson(path))):
+    for i, ((k, n, bias, q, pw), r) in enumerate(zip(rows, vlib.read_ndjson(path))):
         ok = len(r["res"]) == 1 and r["res"][0]["k"] == "val" and not r["res"][0]["neg"]
         if ok:
             x = r["res"][0]
             val = Fraction(lang.limbs_to_int(x["n"]), lang.limbs_to_int(x["d"])) / Fraction(10) ** bias
-            observed[k] = val
+            if pw == 1:
+                observed[k] = val
             nn, dd = vlib.digits(str(val.numerator)), vlib.digits(str(val.denominator))
         else:
             nn, dd = [0], [1]
-        out.append({"id": i + 1, "kind": "def", "key": k, "text": q, "ok": ok, "n": nn, "d": dd,
-                    "shown": str(observed.get(k)) if ok else (r["res"][0].get("msg") if r["res"] else "no result")})
+        out.append({"id": i + 1, "kind": "def", "key": k, "text": q, "ok": ok, "n": nn, "d": dd, "pw": pw,
+                    "shown": str(val) if ok else (r["res"][0].get("msg") if r["res"] else "no result")})
     return out, observed
 
 
@@ -116,6 +118,12 @@ def gen_exprs(rnd, v, n):
                 s += sep
             shown = p * cur          # the power to write so that the meaning is p... write |anything|: meaning is decided by the spec
             s += w if p == 1 else w + rnd.choice(["^", "**"]) + str(p)
+        if rnd.random() < 0.12:
+            # name one of the units a second time, under another prefix (the tool may refuse; if it accepts the factors multiply)
+            w, k, p = rnd.choice(terms)
+            w2, _ = v.word_for(rnd, k)
+            if w2:
+                s += rnd.choice(["/", "*", " "]) + w2
         out.append("1 " + s)
         if rnd.random() < 0.3:
             out.append("%s%s%s" % (ugen.magnitude(rnd, True), rnd.choice(["", " "]), s))
@@ -165,9 +173,11 @@ def run(chk):
             chk.nontrivial(r["text"])
     # unit expressions
     rnd = random.Random(chk.seed + 5)
-    ex = gen_exprs(rnd, v, p["exprs"]) + ["1 m/s/s", "1 m/s/kg", "1 kg m^2/s^2", "1 m s^-1", "1 m*s**-2", "1 N m", "1 m/s^2 kg", "1 kg/m s", "5 km/h", "1 m^2/s^2/K"]
+    ex = gen_exprs(rnd, v, p["exprs"]) + ["1 km/m", "1 mg/kg", "1 ms/s", "1 m m", "1 km*m", "1 kWh/Wh", "1 m/km", "2 cm*mm", "1 MB/kB", "1 m/s/s", "1 m/s/kg", "1 kg m^2/s^2", "1 m s^-1", "1 m*s**-2", "1 N m", "1 m/s^2 kg", "1 kg/m s", "5 km/h", "1 m^2/s^2/K"]
     path = lang.record(ex, "c05-exprs")
-    res2 = lang.validate(chk, path, "c05-exprs", label="unit expressions", chunk=600)
+    # per-unit factors as the tool exhibits them: a wrong *value* here can only come from how the expression is put together
+    obs_path, _ = lang.observed_scales("c05-observed")
+    res2 = lang.validate(chk, path, "c05-exprs", label="unit expressions", chunk=600, fac="ObsFacR", observed=obs_path)
     chk.evals(res2.records)
 
     def owns(problem, rec):
